@@ -13,20 +13,21 @@ import (
 )
 
 type Obligation struct {
-	Name      string
-	Func      string
-	Tags      []string
-	Hyps      []*Term
-	Goal      *Term
-	Where     string
-	Kind      string // requires, ensures, establish, preserve, assert, bounds, ownership, frame, ...
-	Result    string // unsat (discharged) / sat / unknown / timeout / static-ok / static-fail
-	Solver    string
-	Time      float64
-	Model     string
-	CandModel string // model of the quantifier-free relaxation (candidate counterexample)
-	Static    bool   // decided syntactically
-	Detail    string
+	Name         string
+	Func         string
+	Tags         []string
+	Hyps         []*Term
+	Goal         *Term
+	Where        string
+	Kind         string // requires, ensures, establish, preserve, assert, bounds, ownership, frame, ...
+	Result       string // unsat (discharged) / sat / unknown / timeout / static-ok / static-fail
+	Solver       string
+	Time         float64
+	Model        string
+	CandModel    string // model of the quantifier-free relaxation (candidate counterexample)
+	Static       bool   // decided syntactically
+	ShortTimeout bool
+	Detail       string
 }
 
 type flowKind int
@@ -71,6 +72,7 @@ type Engine struct {
 	madeHere     map[string]bool
 	baseNames    map[string]Value
 	selfNames    map[string]Value
+	callRes      map[string][]Value // results of contract calls by callee name (spec: res(Callee_Name, i))
 	dynType      map[string]types.Type
 	extraStreams []*Term
 }
